@@ -427,6 +427,7 @@ SIGN_PROBES = [("!-2 ** 2", "!(-(2 ** 2))"), ("~-2 ** 2", "~(-(2 ** 2))"), ("(in
                ("$a--1", None), ("-$a ** 2", "-($a ** 2)"), ("(-2) ** 2", "4"), ("$a*-1", "$a * (-1)"), ("$a.-1", "$a . (-1)"),
                ("$a ? -1 : -2", "$a ? (-1) : (-2)"), ("$a<-1", "$a < (-1)"), ("$a=-1", "$a = (-1)")]
 SIGN_PROBES = [(a, b) for a, b in SIGN_PROBES if b is not None]
+CONCAT_OPS = ["==", "!=", "===", "!==", "<", ">", "<=", ">=", "<=>", "&&", "||", "&", "^", "|"]
 SIGN_FOLD_KNOWN = 5     # the first five probes are instances of the finding signed-literal-pow
 
 
@@ -761,6 +762,10 @@ def main(ck):
         probes += [{"text": r, "eval": False} for r in RAW]
         for a, b in SIGN_PROBES:
             probes += [{"text": a, "eval": True}, {"text": b, "eval": True}]
+        # where the property text leaves the row of '.' open (Spec assumption (a)) PHP does not: in PHP '.' binds tighter than
+        # the comparison, equality, bitwise and logical operators.  One probe per operator: the source against PHP's reading.
+        for op in CONCAT_OPS:
+            probes += [{"text": "$a %s 'x' . $b" % op, "eval": True}, {"text": "$a %s ('x' . $b)" % op, "eval": True}]
         nfixed_probes = len(probes)
         probes += wrapped
 
@@ -839,6 +844,12 @@ def main(ck):
                 key = ("signed-literal-pow:" if k < SIGN_FOLD_KNOWN else "sign-fold:") + src.replace(" ", "")
                 ck.violation(key, {"case": {"text": src}, "impl_out": x, "spec_text": want, "spec_out": y,
                                    "clause": "%s must evaluate like %s" % (src, want)})
+        cp = o_probes[nfixed_probes - 2 * len(CONCAT_OPS):nfixed_probes]
+        for k, op in enumerate(CONCAT_OPS):
+            x, y = cp[2 * k], cp[2 * k + 1]
+            if (x.get("val"), x.get("vout")) != (y.get("val"), y.get("vout")):
+                ck.violation("concat-below-comparison:" + op, {"case": {"text": "$a %s 'x' . $b" % op}, "impl_out": x, "spec_out": y,
+                                                               "clause": "PHP reads $a %s 'x' . $b as $a %s ('x' . $b); the parser reads ($a %s 'x') . $b" % (op, op, op)})
         # comma-list wrappers
         for w, ow in zip(probes[nfixed_probes:], o_probes[nfixed_probes:]):
             j = w["wrap_of"]
